@@ -227,7 +227,8 @@ func (s *Sim) TransferLeader(p *metapb.Peer) error {
 func (s *Sim) SplitOrMerge() {
 	s.Rng++
 	s.Meta.RegionEpoch.Version++
-	s.Meta.EndKey = append(append([]byte{}, s.Meta.EndKey...), 'x')
+	// the region keeps the left part of its range: a new, smaller end key (never overlaps a neighbour)
+	s.Meta.EndKey = append(append([]byte{}, s.Meta.StartKey...), byte(250-s.Rng%200))
 }
 
 // ErrMisaddressed is returned when a command does not reach the leader or carries a stale epoch.
@@ -245,9 +246,25 @@ func (s *Sim) CheckAddress(msg *pdpb.RegionHeartbeatResponse) error {
 	if s.Leader == nil || tp.GetId() != s.Leader.GetId() || tp.GetStoreId() != s.Leader.GetStoreId() {
 		return ErrMisaddressed{fmt.Sprintf("target peer %v is not the leader %v", tp, s.Leader)}
 	}
+	// TiKV's epoch check per admin command: transfer leader none, configuration change conf_ver, split
+	// version, merge both
 	e := msg.GetRegionEpoch()
-	if e.GetConfVer() != s.Meta.RegionEpoch.GetConfVer() || e.GetVersion() != s.Meta.RegionEpoch.GetVersion() {
-		return ErrMisaddressed{fmt.Sprintf("epoch %v != %v", e, s.Meta.RegionEpoch)}
+	cvOK := e.GetConfVer() == s.Meta.RegionEpoch.GetConfVer()
+	verOK := e.GetVersion() == s.Meta.RegionEpoch.GetVersion()
+	switch {
+	case msg.GetTransferLeader() != nil:
+	case msg.GetChangePeer() != nil, msg.GetChangePeerV2() != nil:
+		if !cvOK {
+			return ErrMisaddressed{fmt.Sprintf("epoch %v != %v", e, s.Meta.RegionEpoch)}
+		}
+	case msg.GetSplitRegion() != nil:
+		if !verOK {
+			return ErrMisaddressed{fmt.Sprintf("epoch %v != %v", e, s.Meta.RegionEpoch)}
+		}
+	default:
+		if !cvOK || !verOK {
+			return ErrMisaddressed{fmt.Sprintf("epoch %v != %v", e, s.Meta.RegionEpoch)}
+		}
 	}
 	return nil
 }
